@@ -494,16 +494,24 @@ class World(Sim):
             # the CALL commits in the database but its reply never reaches the driver (connection dropped after the commit);
             # the caller logs the error and the next monitoring pass deactivates the instance again
             db = inst.db
-            real = db.execute_and_fetchone
+            if not hasattr(self, '_lose_reply'):
+                # one permanent wrapper (two lossy deactivations may be in flight together: no nesting of patches)
+                self._lose_reply = set()
+                real = db.execute_and_fetchone
+                lose = self._lose_reply
 
-            async def lossy(*a, **k):
-                await real(*a, **k)
-                raise ConnectionError('injected: reply to deactivate_instance lost after the commit')
-            db.execute_and_fetchone = lossy
+                async def maybe_lossy(sql, args=None, *a, **k):
+                    r_ = await real(sql, args, *a, **k)
+                    if 'deactivate_instance' in sql and args and args[0] in lose:
+                        lose.discard(args[0])
+                        raise ConnectionError('injected: reply to deactivate_instance lost after the commit')
+                    return r_
+                db.execute_and_fetchone = maybe_lossy
+            self._lose_reply.add(inst.name)
             try:
                 await self._guard(inst.deactivate(reason, self.now_ms()))
             finally:
-                db.execute_and_fetchone = real
+                self._lose_reply.discard(inst.name)
         r = await self._guard(inst.deactivate(reason, self.now_ms()))
         r.update(instance=inst.name, reason=reason, instance_state_before=state_before, lost_reply=bool(lost_reply))
         return r
